@@ -11,6 +11,12 @@ RULE = ("validated models from the structured generator (depth 0-3, all connecti
 
 def total_interp(m, rng, p_over=0.25):
     env = random_env(leaves_of(m), rng)
+    if rng.random() < 0.25:
+        # a value outside the declared bounds of a leaf (the API takes it as given, in every value form): it counts as it is
+        l = rng.choice(leaves_of(m))
+        lo, hi = int(l.bounds.lower), int(l.bounds.upper)
+        if abs(lo) < 2 ** 20 and abs(hi) < 2 ** 20:
+            env[l.id] = rng.choice([hi + 1, hi + 2, lo - 1, hi + rng.randint(1, 4)])
     d = {k: (v, v) for k, v in env.items()}
     if rng.random() < p_over:
         for x in all_nodes(m):
@@ -66,7 +72,7 @@ def oracle_case(res, ast, d, env, rng):
             dd[k0] = alt[0]
             env2 = dict(env); env2[k0] = alt[0]
             ref2 = {}
-            top2 = ref_eval_d(mm, {}, env2, ref2)
+            top2 = ref_eval_d(mm, {k: (v, v) for k, v in dd.items()}, env2, ref2)      # the interpretation as given (a value may differ from a declared constant)
             got2 = mm.evaluate_propositions(dd)
             res.evaluations += 1
             wrong = [(k, b.as_tuple(), sorted(ref2[k])) for k, b in got2.items() if b.as_tuple() != (list(ref2[k])[0],) * 2]
